@@ -20,7 +20,7 @@ ID = "C06"
 LEVEL = "fault_enumeration"
 TIERS = {
     "quick": {"shards": 96, "examples": 6, "det_shards": 2},
-    "thorough": {"shards": 640, "examples": 12, "det_shards": 8},
+    "thorough": {"shards": 256, "examples": 6, "det_shards": 4},
 }
 RULE = ("case = (module, setting, fault set): for each generated valid module, every eligible position (thorough; a "
         "seeded stride of them in the quick tier) of each sampled fault kind {truncate, stray quote, invalid escape, "
@@ -49,7 +49,7 @@ def swarm(rng, tier):
     return {
         "kinds": sorted(rng.sample(KINDS, k)),
         "max_faults": 70 if tier == "quick" else 100000,
-        "max_cmds": rng.choice([1, 2, 3]) if tier == "quick" else rng.choice([1, 2, 2, 3]),
+        "max_cmds": rng.choice([1, 2, 3]) if tier == "quick" else rng.choice([1, 1, 2, 2]),
         "pairs": rng.choice([0, 4, 8]),
         "mode": rng.choice(["o", "o", "stdout", "mixed"]),
         "settings_profile": rng.choice([None, None, "undoc_off", "mixed"]),
